@@ -1,6 +1,7 @@
 """C34 — membership events are emitted once and only after rebalancing settles (E2 on the real
 cluster struct, in-package; model = Lean Model/C34; oracle = Lean Spec/C34 with a python mirror)."""
 import itertools
+import os
 
 ID = "C34"
 LEAN_MODULES = ["GoaktVerif.Props.C34"]
@@ -39,6 +40,25 @@ RULE = ("histories over nodes s,a,b,c and epochs 0..9: all histories of a bounde
 EXHAUSTIVE = {"quick": False, "thorough": False}
 
 PEERS = "abc"
+TIMEOUT = 14400
+
+# exhaustive enumeration of ALL histories of length <= 7 over the 14-token alphabet (2 peers, 2 epochs,
+# timeouts and joins included): 113 million histories, far too many for one line each.  A case line
+# `enum 7 <t1> <t2>` makes the harness run every history that starts with the two tokens on the real code
+# and the Lean driver walk the same tree on the model; both print the number of histories and an
+# order-independent 64-bit checksum of (history, events of every step, full state digest).  196 shards.
+# VERIF_C34_ENUM7 = number of shards per thorough run (default 4, `all` = 196, about 4.5 CPU-hours on the Go
+# side); the seed rotates the starting shard, so repeated background runs cover the whole space.
+ENUM_TOKENS = ["la1", "la2", "lb1", "lb2", "SL1a", "C1", "SL2a", "C2", "oa", "ob", "ja", "jb", "SJ1a", "SJ2a"]
+ENUM_BAD_PREFIX = []
+
+
+def enum_shards(rng, tier):
+    want = os.environ.get("VERIF_C34_ENUM7", "4" if tier == "thorough" else "0")
+    shards = [f"enum 7 {a} {b}" for a in ENUM_TOKENS for b in ENUM_TOKENS]
+    n = len(shards) if want == "all" else max(0, min(len(shards), int(want or 0)))
+    off = rng.randrange(len(shards))
+    return [shards[(off + i) % len(shards)] for i in range(n)]
 
 
 # ---------------------------------------------------------------------------
@@ -168,6 +188,8 @@ def gen_cases(rng, tier):
             cases.append(script_case(rng, rng.choice([2, 3]), rng.choice([2, 3, 5]), rng.choice([0, 1.0, 4.0]), 0.2, 0.1))
     for _ in range(n_rand):
         cases.append(random_case(rng, 3, 3, 12))
+    cases.append("enum 4")          # every history of length <= 4 over the 14-token alphabet, one line
+    cases += enum_shards(rng, tier)
     return [c for c in cases if c]
 
 
@@ -178,6 +200,11 @@ def search_cases(rng, tier):
         cases.append(script_case(rng, 3, 3, [0, 2.5][i % 2], 0.25, 0.05))
     for _ in range(4000):
         cases.append(random_case(rng, 3, 3, 12))
+    for pre in ENUM_BAD_PREFIX[:2]:
+        # an enumeration shard differed: list its histories one per line (up to 4 more ops)
+        for k in range(0, 5):
+            for t in itertools.product(ENUM_TOKENS, repeat=k):
+                cases.append(" ".join(pre + list(t)))
     return [c for c in cases if c]
 
 
@@ -186,10 +213,14 @@ def search_cases(rng, tier):
 # ---------------------------------------------------------------------------
 
 def compare(case, impl, model):
+    if case.startswith("enum ") and impl != model:
+        ENUM_BAD_PREFIX.append(case.split()[2:])
     return None if impl == model else f"diff: impl={impl!r} model={model!r}"
 
 
 def is_trivial(case, impl):
+    if case.startswith("enum "):
+        return not impl.startswith("n=")
     if impl in ("", "bad-case") or impl.startswith(("CRASH", "panic", "err")):
         return True
     steps = impl.split(" | ")[0].split()
@@ -197,6 +228,8 @@ def is_trivial(case, impl):
 
 
 def tag(case, impl):
+    if case.startswith("enum "):
+        return "enum:" + (impl.split()[0] if impl else "")
     if not impl or " | " not in impl:
         return "other"
     steps = impl.split(" | ")[0].split()
@@ -267,8 +300,8 @@ def py_verdict(case, impl):
 def oracle(case, impl, judge):
     if impl.startswith("CRASH") or impl.startswith("panic") or impl.startswith("err"):
         return "harness failed: " + impl
-    if impl == "bad-case":
-        return None
+    if impl == "bad-case" or case.startswith("enum "):
+        return None     # an enumeration line carries a checksum; the property on it follows from equality with the model
     if judge is not None:
         return None if judge.startswith("ok") else judge[4:] if judge.startswith("bad ") else judge
     return py_verdict(case, impl)
